@@ -828,7 +828,7 @@ class Renderer:
             btxt = self.render_block(body, entry, self.stmt_text("exit"), unit="ret_ty" not in node)
         if self.self_name != "self":
             # rename in the code only: clause text (between markers) keeps talking about `self`, the parameter
-            parts = re.split(r"(/\*<[^>/][^>]*>\*/.*?/\*</[^>]*>\*/)", btxt, flags=re.S)
+            parts = re.split(r"(/\*<[^/](?:(?!>\*/).)*>\*/.*?/\*</(?:(?!>\*/).)*>\*/)", btxt, flags=re.S)
             btxt = "".join(x if x.startswith("/*<") else re.sub(r"\bself\b", "this", x) for x in parts)
             btxt = btxt.replace("let mut this = this;", "let mut this = self;", 1)
         btxt = self.subst_assoc(btxt)
@@ -1011,6 +1011,7 @@ def generate(outdir):
             if not s.used:
                 die("overlay: anchor not found in %s: @%s %s (%s)" % (fn.key, s.anchor, " ".join(s.args), s.origin))
         entry["rewrites"] = r.log
+        entry["nopanic"] = [t.strip() for t in rec.attrs.get("nopanic", "").split(",") if t.strip()]
         entry["sites"] = count_sites(fn.node["tree"])
         entry["gen_name"] = rec.attrs.get("name", fn.name)
         entry["clauses"] = [s.cid for s in rec.sections if s.cid in ctx.clauses]
@@ -1100,7 +1101,7 @@ def generate(outdir):
     # ---- marker spans (byte offsets in the generated file)
     data = text.encode()
     spans = []
-    for m in re.finditer(rb"/\*<(fn )?([^>/][^>]*)>\*/", data):
+    for m in re.finditer(rb"/\*<(fn )?([^/](?:(?!>\*/).)*)>\*/", data):
         cid = m.group(2).decode()
         close = b"/*</%s%s>*/" % (m.group(1) or b"", m.group(2))
         e = data.find(close, m.end())
